@@ -110,7 +110,10 @@ fn c06_topn_threshold_sound_k2_m6() {
             assert!(ge >= K);
         }
         if let Some(t) = top.threshold {
-            // the threshold is the key of a pushed item, and K items are >= it
+            // K pushed items are >= the threshold: dropping an item that does not beat it is
+            // sound (ties go to the earlier address). The current implementation keeps the
+            // (K+1)-th best key, which gives K+1 such items; the property only needs K, and a
+            // tighter K-th-best threshold is equally correct, so K is what is asserted.
             let mut ge = 0usize;
             let mut j = 0usize;
             while j < M {
@@ -119,7 +122,7 @@ fn c06_topn_threshold_sound_k2_m6() {
                 }
                 j += 1;
             }
-            assert!(ge > K);
+            assert!(ge >= K);
         }
         i += 1;
     }
